@@ -21,6 +21,7 @@ Definition run (x : sx) : sx :=
   else if str_eqb fam (bytes "swap") then run_swap x
   else if str_eqb fam (bytes "crash") then run_crash x
   else if str_eqb fam (bytes "coord") then run_coord x
+  else if str_eqb fam (bytes "aecache") then run_aecache x
   else L [A (bytes "unknown-family")].
 
 Definition proj (x o : sx) : sx :=
@@ -53,6 +54,7 @@ Definition spec (prop : str) (x o : sx) : sx :=
   else if str_eqb fam (bytes "cfg") then mon_C19_cfg x o
   else if str_eqb fam (bytes "reload") then mon_C19_reload x o
   else if str_eqb fam (bytes "swap") then mon_C19_swap x o
+  else if str_eqb fam (bytes "aecache") then mon_C06_ae x o
   else if str_eqb fam (bytes "crash") then mon_C14 x o
   else if str_eqb fam (bytes "coord") then (if str_eqb prop (bytes "C13") then mon_C13 x o else mon_C12 x o)
   else if str_eqb fam (bytes "route") then
